@@ -64,7 +64,7 @@ def check_module(name):
            "theorem_file": "coq/srcref/" + m["files"][-1]}
     try:
         text = py2coq.translate(open(src, encoding="utf-8").read(), m["term"])
-    except (py2coq.Unsupported, SyntaxError, OSError) as e:
+    except (py2coq.Unsupported, SyntaxError, OSError, RecursionError, ValueError, AttributeError, TypeError) as e:
         out.update(status="untranslatable", detail=str(e)[:300])
         return out
     h = hashlib.sha256((name + text).encode())
